@@ -3,6 +3,11 @@
 From BW Require Import Merge.
 From BWP Require Import TextFacts Keys_proofs C01_proofs Run_proofs Merge_proofs.
 From Coq Require Import Permutation.
+From BW Require Import Validators.
+From BWP Require Import Keys2_proofs.
+From BW Require Import Main.
+From BWGen Require Import ExtTable.
+From BWP Require Import Main_proofs MainCompose_proofs Scope_proofs.
 
 (* If any validator stops with an error the run exits 1, whatever other validators report and in whatever order. *)
 Theorem C13_any_error_fails_run : forall o ctx vs v,
@@ -127,3 +132,53 @@ Theorem C13_order_independent : forall o ctx vs vs', Permutation vs vs' ->
   exit_code (run_validators o ctx vs) = exit_code (run_validators o ctx vs').
 Proof. exact run_validators_perm. Qed.
 Print Assumptions C13_order_independent.
+
+(* Numeric sort: if one of the first two keys is not a number the validator fails with the not-a-number error (keep_sorted_not_number_after_clean_prefix in proofs/Keys2_proofs.v covers any position after an ordered numeric prefix). *)
+Theorem C13_non_numeric_key_fails o file b v asc content k1 k2 rest :
+  get_attr (T "keep-sorted") (b_attrs b) = Some v ->
+  parse_direction v = Ok asc ->
+  parse_format (b_attrs b) = Ok Numeric ->
+  content_of file b = Ok content ->
+  keys_of o (sort_pat b) E_SORT_PATTERN content = Ok (k1 :: k2 :: rest) ->
+  not_number_pair o (k_val k1) (k_val k2) ->
+  keep_sorted o file b = Err E_NOT_NUMBER.
+Proof. exact (keep_sorted_not_number o file b v asc content k1 k2 rest). Qed.
+Print Assumptions C13_non_numeric_key_fails.
+
+(* Even when the two keys are the same text. *)
+Theorem C13_equal_non_numeric_keys_fail o file b v asc content k1 k2 rest :
+  get_attr (T "keep-sorted") (b_attrs b) = Some v ->
+  parse_direction v = Ok asc ->
+  parse_format (b_attrs b) = Ok Numeric ->
+  content_of file b = Ok content ->
+  keys_of o (sort_pat b) E_SORT_PATTERN content = Ok (k1 :: k2 :: rest) ->
+  k_val k1 = k_val k2 -> o_f64 o (k_val k1) = Some None ->
+  keep_sorted o file b = Err E_NOT_NUMBER.
+Proof. exact (keep_sorted_not_number_equal o file b v asc content k1 k2 rest). Qed.
+Print Assumptions C13_equal_non_numeric_keys_fail.
+
+(* Through main: a block on which a detected validator fails makes the process end with a non-zero status. *)
+Theorem C13_malformed_rule_fails_process : forall a p ms tb cd v f bc e,
+  plan_of a = Ok p -> ca_list a = false ->
+  let cr := model_context (main_case a p ms tb cd) in
+  cr_panic cr = false -> cr_errs cr = [] ->
+  In f (cr_ctx cr) -> In bc (fc_blocks f) ->
+  validate_block (oracles_of tb) (named_modified (cr_ctx cr)) v f bc = Err e ->
+  In v (detected_validators (pl_enabled p) (pl_disabled p) (cr_ctx cr)) ->
+  (main_exit (main_model a ms tb cd) = 1 \/ main_exit (main_model a ms tb cd) = 101) /\
+  main_exit (main_model a ms tb cd) <> 0.
+Proof. exact malformed_rule_fails_main. Qed.
+Print Assumptions C13_malformed_rule_fails_process.
+
+(* The validator only has to be switched on: a failing rule is always detected. *)
+Theorem C13_malformed_rule_of_active_validator_fails_process : forall a p ms tb cd v f bc e,
+  plan_of a = Ok p -> ca_list a = false ->
+  let cr := model_context (main_case a p ms tb cd) in
+  cr_panic cr = false -> cr_errs cr = [] ->
+  In f (cr_ctx cr) -> In bc (fc_blocks f) ->
+  validate_block (oracles_of tb) (named_modified (cr_ctx cr)) v f bc = Err e ->
+  In v (active_validators (pl_enabled p) (pl_disabled p)) ->
+  (main_exit (main_model a ms tb cd) = 1 \/ main_exit (main_model a ms tb cd) = 101) /\
+  main_exit (main_model a ms tb cd) <> 0.
+Proof. exact malformed_rule_active_fails_main. Qed.
+Print Assumptions C13_malformed_rule_of_active_validator_fails_process.
